@@ -26,7 +26,7 @@ import subprocess
 
 from proggen.c03 import ancestors_of, has_diamond, select
 
-KINDS = ["ref", "cref", "ptr", "cptr", "sp", "csp", "vp"]
+KINDS = ["ref", "cref", "ptr", "cptr", "sp", "csp", "vp", "spc", "cvp"]
 
 
 def gen_case(rng):
@@ -146,14 +146,16 @@ def emit(case):
                 "ptr": "virtual_<K%d*>", "cptr": "virtual_<const K%d*>",
                 "sp": "virtual_<std::shared_ptr<K%d>>",
                 "csp": "virtual_<const std::shared_ptr<K%d>&>",
-                "vp": "VP%d"}[kind] % p
+                "spc": "virtual_<std::shared_ptr<const K%d>>",
+                "cvp": "CVP%d", "vp": "VP%d"}[kind] % p
 
     def param(kind, c, k):
         return {"ref": "K%d& a%d", "cref": "const K%d& a%d",
                 "ptr": "K%d* a%d", "cptr": "const K%d* a%d",
                 "sp": "std::shared_ptr<K%d> a%d",
                 "csp": "const std::shared_ptr<K%d>& a%d",
-                "vp": "VP%d a%d"}[kind] % (c, k)
+                "spc": "std::shared_ptr<const K%d> a%d",
+                "cvp": "CVP%d a%d", "vp": "VP%d a%d"}[kind] % (c, k)
 
     def arg(kind, p, c):
         return {"ref": "static_cast<K%d&>(*s%d)",
@@ -162,14 +164,17 @@ def emit(case):
                 "cptr": "static_cast<const K%d*>(s%d.get())",
                 "sp": "std::shared_ptr<K%d>(s%d)",
                 "csp": "std::shared_ptr<K%d>(s%d)",
+                "spc": "std::shared_ptr<const K%d>(s%d)",
+                "cvp": "CVP%d(static_cast<const K%d&>(*s%d))",
                 "vp": "VP%d(static_cast<K%d&>(*s%d))"}[kind] % (
-                    (p, p, c) if kind == "vp" else (p, c))
+                    (p, p, c) if kind in ("vp", "cvp") else (p, c))
 
     for flavour in ("std", "ptr", "int"):
         out.append("namespace f_%s {" % flavour)
         out.append("using POL = %s_pol;" % flavour)
         for c in range(n):
             out.append("using VP%d = virtual_ptr<K%d, POL>;" % (c, c))
+            out.append("using CVP%d = virtual_ptr<const K%d, POL>;" % (c, c))
         out.append("register_classes(%s, POL);" % ", ".join(
             "K%d" % c for c in case.get("reg_order", range(n))))
         params = [decl(k, p) for k, p in zip(case["kinds"], case["vp"])]
